@@ -56,15 +56,15 @@ theorem WF.no_self {l : CL} {L : List Nat} {b : Nat} (w : WF l L b) {n : Nat} (h
 
 /-- **`doFreeNode` (source) = `freeNode` (Model)** on every well-formed list, for every node of the
     list. -/
-theorem C02_bridge_doFreeNode {l : CL} {L : List Nat} {b : Nat} (w : WF l L b) {n : Nat} (hn : n ∈ L) :
-    Agrees (exec doFreeNode (ofCL l (some n) none)) (l.freeNode n) :=
-  bridge_doFreeNode l n (w.no_self hn).1 (w.no_self hn).2
+theorem C02_bridge_doFreeNode (fuel : Nat) {l : CL} {L : List Nat} {b : Nat} (w : WF l L b) {n : Nat} (hn : n ∈ L) :
+    Agrees (exec fuel doFreeNode (ofCL l (some n) none)) (l.freeNode n) :=
+  bridge_doFreeNode fuel l n (w.no_self hn).1 (w.no_self hn).2
 
 /-- **`doAppend` (source) = `linkBack` (Model)** on every well-formed list, for a freshly allocated
     node. -/
-theorem C02_bridge_doAppend {l : CL} {L : List Nat} {b : Nat} (w : WF l L b) (id : Nat) (hid : b ≤ id)
+theorem C02_bridge_doAppend (fuel : Nat) {l : CL} {L : List Nat} {b : Nat} (w : WF l L b) (id : Nat) (hid : b ≤ id)
     (cb : Cb) (c : Nat) :
-    Agrees (exec doAppend (ofCL (allocated l id cb c) (some id) none)) (l.linkBack id cb c) := by
+    Agrees (exec fuel doAppend (ofCL (allocated l id cb c) (some id) none)) (l.linkBack id cb c) := by
   apply bridge_doAppend
   intro hh
   rw [w.head_eq] at hh
@@ -80,12 +80,29 @@ theorem C02_bridge_doAppend {l : CL} {L : List Nat} {b : Nat} (w : WF l L b) (id
 
 /-- **`doInsert` (source) = `linkBefore` (Model)** on every well-formed list, for a freshly
     allocated node and a `before` node of the list. -/
-theorem C02_bridge_doInsert {l : CL} {L : List Nat} {b : Nat} (w : WF l L b) (id : Nat) (hid : b ≤ id)
+theorem C02_bridge_doInsert (fuel : Nat) {l : CL} {L : List Nat} {b : Nat} (w : WF l L b) (id : Nat) (hid : b ≤ id)
     (cb : Cb) (c : Nat) {bn : Nat} (hbn : bn ∈ L) :
-    Agrees (exec doInsert (ofCL (allocated l id cb c) (some id) (some bn))) (l.linkBefore id cb c bn) := by
+    Agrees (exec fuel doInsert (ofCL (allocated l id cb c) (some id) (some bn))) (l.linkBefore id cb c bn) := by
   apply bridge_doInsert
   have := w.lt bn hbn
   omega
+
+/-- **the wrap branch of `getNextCounter` (source) = the Model's.**  When the next draw wraps, the
+    Model's `nextCounter` leaves the heap that the source's reset loop computes (every node linked
+    from `head` gets generation 1), `head` and `tail` untouched, and the loop runs under the list mutex
+    (so it is one critical section in the concurrent model). -/
+theorem C19_bridge_wrapReset (fuel : Nat) (l : CL) (hw : l.willWrap = true) :
+    (l.nextCounter fuel).1.heap = (exec fuel wrapReset (ofCL l none none)).heap ∧
+    (exec fuel wrapReset (ofCL l none none)).head = l.head ∧
+    (exec fuel wrapReset (ofCL l none none)).tail = l.tail ∧
+    (exec fuel wrapReset (ofCL l none none)).ub = false ∧
+    wrapResetLocked = true := by
+  obtain ⟨h1, h2, h3, h4⟩ := bridge_wrapReset fuel l
+  refine ⟨?_, h2, h3, h4, by decide⟩
+  rw [h1]
+  unfold CL.willWrap at hw
+  have : (l.cur + 1) % l.M = 0 := by simpa using hw
+  simp [CL.nextCounter, this]
 
 /-- the traversal test of `doForEachIf` in the source is the Model's `guard` -/
 theorem C02_bridge_guard (nc cap : Nat) : Gen.Cl.guard nc cap = Evp.guard nc cap := rfl
